@@ -110,7 +110,7 @@ impl Property for C16Retry {
             if judged.is_none() {
                 // a rejected call returns promptly: a bounded number of its own steps
                 if let Some(s) = run.sends.iter().find(|s| !s.accepted && !s.unfinished && s.own_steps > 60) {
-                    judged = Some((format!("{k}/{}/rejection-not-prompt", entry_name(s.entry)), format!("the rejected send of {} took {} scheduling points of its own thread; history: {}", payload::show(s.val), s.own_steps, run.render())));
+                    judged = Some((format!("{k}/{}/rejection-not-prompt", entry_name(s.entry)), format!("the rejected send of {} took {} scheduling points of its own thread while no other thread was inside an operation (nothing to wait for); history: {}", payload::show(s.val), s.own_steps, run.render())));
                 }
             }
             if judged.is_none() {
@@ -130,7 +130,7 @@ impl Property for C16Retry {
     }
     fn rule(&self) -> String {
         "generated: Uni kind (5) x BUFFER_SIZE {2,4} x buffer (almost) full beforehand x 1..3 producers re-sending the handed-back payload / setter (bounded retry, other threads run in between) x one slow consumer (holds each item >= 1 step) x schedule; \
-         oracle: delivery ledger (a rejected event is never yielded, the handed-back input is the one passed in, un-invoked) + interval rule for every 'buffer full' answer + never more than BUFFER_SIZE pending + a rejected call takes a bounded number of its own steps (<= 60 scheduling points) + after the final drain exactly BUFFER_SIZE of BUFFER_SIZE+1 sends are accepted; \
+         oracle: delivery ledger (a rejected event is never yielded, the handed-back input is the one passed in, un-invoked) + interval rule for every 'buffer full' answer + never more than BUFFER_SIZE pending + a rejected call takes a bounded number of its own steps (<= 60 scheduling points executed while no other thread is inside an operation: waiting for a peer's operation in progress is not counted) + after the final drain exactly BUFFER_SIZE of BUFFER_SIZE+1 sends are accepted; \
          non-trivial: a send was rejected and its retry accepted".into()
     }
     fn schedule_mut<'a>(&self, case: &'a mut ChanCase) -> Option<&'a mut Schedule> { Some(&mut case.schedule) }
